@@ -144,6 +144,12 @@ Arguments is_dir {T}. Arguments is_neu {T}. Arguments ncomp {T}.
 (* Executed instance: integer-valued fluxes (exact in binary64). *)
 Definition nonnegZ (x : Z) : bool := (0 <=? Z.sgn x)%Z.
 
+(* Executed instance of the tie: dyadic fluxes (m, k) standing for the binary64 value m * 2^k
+   (exact for the small mantissas and exponents the harness draws); the sign is that of m. *)
+Definition dyadic := (Z * Z)%type.
+Definition sgnD (x : dyadic) : Z := Z.sgn (fst x).
+Definition nonnegD (x : dyadic) : bool := (0 <=? sgnD x)%Z.
+
 Definition entry_eqb (a b : nat * nat * Z) : bool :=
   let '(r, c, v) := a in let '(r', c', v') := b in (r =? r') && (c =? c') && (v =? v')%Z.
 
@@ -168,17 +174,19 @@ Definition zt := (Z * Z * Z)%type.
 Definition of_zt (t : zt) : nat * nat * Z := let '(a, b, v) := t in (Z.to_nat a, Z.to_nat b, v).
 Definition of_zshape (s : Z * Z) : nat * nat := (Z.to_nat (fst s), Z.to_nat (snd s)).
 
-Definition mk_input (dim nf nc : Z) (cf : list zt) (q : list Z) (isdir isneu : list bool)
-           (k : Z) : input Z :=
+Definition nthd (l : list dyadic) (i : nat) : dyadic := nth i l (0, 0)%Z.
+
+Definition mk_input (dim nf nc : Z) (cf : list zt) (q : list dyadic) (isdir isneu : list bool)
+           (k : Z) : input dyadic :=
   {| dim := Z.to_nat dim; nf := Z.to_nat nf; nc := Z.to_nat nc; cf := map of_zt cf;
-     q := nthz q; is_dir := nthb isdir; is_neu := nthb isneu; ncomp := Z.to_nat k |}.
+     q := nthd q; is_dir := nthb isdir; is_neu := nthb isneu; ncomp := Z.to_nat k |}.
 
 Definition zmat := (list zt * (Z * Z))%type.
 
 (* expected: None = the implementation raised ValueError; Some (three matrices with shapes) *)
-Definition agree (I : input Z) (expected : option (zmat * zmat * zmat)) : bool :=
+Definition agree (I : input dyadic) (expected : option (zmat * zmat * zmat)) : bool :=
   one_sidedb (cf I) &&
-  match discretize Z nonnegZ I, expected with
+  match discretize dyadic nonnegD I, expected with
   | Err ValueErr, None => true
   | Ok o, Some (u, us, (d, ds), (n, ns)) =>
       coo_eqb (canon (upwind o)) (map of_zt u) && shape_eqb (upwind_shape o) (of_zshape us)
